@@ -47,6 +47,9 @@ def run(tier, seed):
         names = ['hl_a', 'hl_net_block_crc_failures', 'x', 'field with space', 'F_%d', 'ü']
         for t in range(40 if thorough else 10):
             fields = [(rng.choice(names) + str(i), rng.choice([1, 2])) for i in range(rng.randrange(0, 12))]
+            if t % 3 == 1 and fields:
+                # the same name declared several times (reserved fields): every declaration is a field of its own
+                fields = [(rng.choice(['hl_reserved', 'hl_pad', fields[0][0]]) if rng.random() < 0.6 else nm, sz) for nm, sz in fields]
             path = os.path.join(tmp, 'h%d.h' % t)
             iod.write_hlog_header(path, fields)
             loader_files.append(('synth%d' % t, path))
